@@ -18,6 +18,9 @@ pub enum ValDist {
     Mixed,
     /// mixed + now and then a value that pushes the file past 128 KiB (and, thorough, 16 MiB)
     Pushing,
+    /// churn on the shared large free list: slots from 1 KiB to several 100 KiB (slot size fields
+    /// of 2 and 3 bytes), few distinct sizes so that first-fit skips, reuses and splits nothing
+    LargeChurn,
 }
 
 #[derive(Clone, Copy, Debug, PartialEq)]
@@ -54,6 +57,14 @@ impl Gen {
                         let base = if c >= 128 { c - 3 } else { c - 2 };
                         (base + r.range(0, 4) as i64 - 2).max(0) as usize
                     }
+                }
+            }
+            ValDist::LargeChurn => {
+                let base = *r.pick(&[1100usize, 1500, 2000, 3000, 5000, 9000, 16380, 20000, 40000, 70000, 100_000, 131_000, 131_072, 140_000, 156_000, 182_000, 221_000, 260_000, 400_000]);
+                if r.chance(1, 3) {
+                    base + r.below(130) as usize
+                } else {
+                    base
                 }
             }
             ValDist::Mixed | ValDist::Pushing => {
@@ -263,11 +274,13 @@ pub struct Weights {
     pub handles: u32,
     pub reopen: u32,
     pub audit: u32,
+    /// delete every live key of the map (the map is emptied again)
+    pub empty_out: u32,
 }
 
 impl Weights {
     pub fn basic() -> Weights {
-        Weights { put: 40, get: 20, del: 18, inc: 6, len: 4, strs: 0, bulk: 0, put_iter: 0, flush: 0, sync: 0, db_sync: 0, read_fill: 0, stats: 0, traverse: 0, iter_steps: 0, handles: 0, reopen: 0, audit: 0 }
+        Weights { put: 40, get: 20, del: 18, inc: 6, len: 4, strs: 0, bulk: 0, put_iter: 0, flush: 0, sync: 0, db_sync: 0, read_fill: 0, stats: 0, traverse: 0, iter_steps: 0, handles: 0, reopen: 0, audit: 0, empty_out: 0 }
     }
 }
 
@@ -356,7 +369,7 @@ pub fn history(g: &mut Gen, cfg: &HistCfg) -> Vec<Step> {
     let w = &cfg.w;
     let weights = [
         w.put, w.get, w.del, w.inc, w.len, w.strs, w.bulk, w.put_iter, w.flush, w.sync, w.db_sync, w.read_fill, w.stats, w.traverse, w.iter_steps, w.handles,
-        w.reopen, w.audit,
+        w.reopen, w.audit, w.empty_out,
     ];
     let mut steps = Vec::with_capacity(cfg.steps);
     let mut reopen_count = 0u32;
@@ -567,7 +580,19 @@ pub fn history(g: &mut Gen, cfg: &HistCfg) -> Vec<Step> {
                 }
                 steps.push(Step::Reopen { params, xproc });
             }
-            _ => steps.push(Step::Audit),
+            17 => steps.push(Step::Audit),
+            _ => {
+                let idxs: Vec<usize> = live[m].iter().copied().collect();
+                for i in idxs {
+                    steps.push(Step::Del { h, k: a[i].clone(), mode: KeyMode::Ref });
+                }
+                live[m].clear();
+                for it in iters.iter_mut() {
+                    if *it == Some(m) {
+                        *it = None;
+                    }
+                }
+            }
         }
         // an update of map m invalidates its live iterators (the runner drops them too)
         if steps.last().map(|s| s.is_update()).unwrap_or(false) {
